@@ -217,6 +217,33 @@ def run(rep, tier):
     C07.lua_marshalling_faults(Renamed(rep, {'R07.10': 'R16.11'}), fb)
     from . import C15
     C15.payload_atoms_are_data(rep, facts.FactBase(['src/uscxml/messages/Data.cpp']), 'R16.12')
+    # ---- R16.14 / R16.15 (second audit)
+    rep.rule('R16.14', 'an array keeps its indices: getDataAsLua stores the i-th element under the key i (LuaRef::append is luaL_ref-like and drops nil, everything behind a hole moves down), and getLuaAsData calls a table an array only if it is a sequence')
+    gdl = fb.fn('uscxml::getDataAsLua', required=False) or next((f_ for f_ in fb.funcs.values() if f_.q.endswith('getDataAsLua')), None)
+    if gdl is None:
+        raise AnalysisBroken('getDataAsLua not found')
+    appends = [y for y in gdl.walk() if y.get('callee', {}).get('q', '').split('::')[-1] == 'append' and 'LuaRef' in y.get('callee', {}).get('q', '')]
+    rep.check(not appends, 'R16.14', 'getDataAsLua|array elements', locstr(appends[0]) if appends else gdl.where(), 'array elements are %s' % (
+        'stored under their index' if not appends else 'APPENDED (LuaRef::append): {\'a\', nil, \'c\'} arrives as {\'a\', \'c\'}, JSON [1,null,3] as {1,3}; a sparse table {[1]=.., [5000000]=..} is expanded element by element on the way out (3.4 GB)'))
+    rep.rule('R16.15', 'a number keeps its value: getLuaAsData writes a Lua number with enough digits to read the same double back (17 significant digits) and spells non-finite values so that Lua reads them')
+    gld = next((f_ for f_ in fb.funcs.values() if f_.q.endswith('getLuaAsData')), None)
+    if gld is None:
+        raise AnalysisBroken('getLuaAsData not found')
+    tostr_d = [y for y in gld.walk() if y.get('callee', {}).get('q', '') == 'uscxml::toStr' and y.get('c') and len(y['c']) > 1 and (strip(y['c'][1]).get('t') or '') == 'double'
+               and any(a_['k'] in ('BinaryOperator', 'CXXOperatorCallExpr') and a_.get('op') == '=' and any(z['k'] == 'MemberExpr' and z.get('ref', {}).get('name') == 'atom' for z in sub(a_['c'][-2])) for a_ in gld.ancestors(y))]
+    rep.check(not tostr_d, 'R16.15', 'getLuaAsData|number text', locstr(tostr_d[0]) if tostr_d else gld.where(), 'the text of a Lua number %s' % (
+        'is written with round-trip precision' if not tostr_d else 'is toStr(double): 16 significant digits and the stream spellings inf / nan - 0.1+0.2 is received as 0.3, math.huge as nil, -math.huge and 0/0 raise error.execution in the receiver'))
+    # ---- R16.13 an array payload read back through <foreach>: the array attribute is a value expression
+    rep.rule('R16.13', 'an array that arrived as payload is iterated like any other: LuaDataModel::setForeach evaluates the array attribute as an expression (as getLength does) and does not look its text up as the name of a global (array="_event.data.list" names no global: item and index were never assigned, the body ran over nothing)')
+    sf = fb.fn('uscxml::LuaDataModel::setForeach')
+    arr_p = [p_['lid'] for p_ in sf.d.get('params', []) if p_.get('name') == 'array']
+    if not arr_p:
+        raise AnalysisBroken('LuaDataModel::setForeach: parameter `array` not found')
+    by_name = [n for n in sf.walk() if n.get('callee', {}).get('q', '').split('<')[0] in ('luabridge::getGlobal', 'lua_getglobal') and any(
+        y['k'] == 'DeclRefExpr' and y.get('ref', {}).get('lid') == arr_p[0] for y in sub(n))]
+    evals = [n for n in sf.walk() if n.get('callee', {}).get('q', '').endswith('luaEval') and any(y['k'] == 'DeclRefExpr' and y.get('ref', {}).get('lid') == arr_p[0] for y in sub(n))]
+    rep.check(not by_name and bool(evals), 'R16.13', 'setForeach|array expression', locstr(by_name[0]) if by_name else sf.where(), 'the array attribute %s' % (
+        'is evaluated as an expression (%d evaluations)' % len(evals) if not by_name else 'is looked up with getGlobal(array): only a bare global name is found, _event.data.list / box.items / {10,20} give nil and the assignment of item and index is skipped silently'))
     rep.covered(tus=len(TUS), extracted=fb.extracted, functions=len(fb.funcs))
     l2d = fb.fn('uscxml::getLuaAsData')
     d2l = fb.fn('uscxml::getDataAsLua')
